@@ -922,9 +922,10 @@ fn exec_explore(w: &[&str], overlay: &mut HashMap<String, Bytes>, stats: &mut St
         }
         ["debugid", s] => {
             let s = utf8(s)?;
+            let all_hex = !s.is_empty() && s.bytes().all(|b| b.is_ascii_hexdigit());
             let r = guarded(|| {
-                let _ = samply_api::debugid::DebugId::from_breakpad(&s);
-                "fine".to_string()
+                let r = samply_api::debugid::DebugId::from_breakpad(&s);
+                if all_hex { if r.is_ok() { "id-ok" } else { "id-err" }.to_string() } else { "fine".to_string() }
             });
             stats.bump(&format!("debugid_{r}"));
             r
@@ -1052,7 +1053,7 @@ impl Prop for C08 {
         ops.len() == out.len()
             && out.iter().zip(ops).any(|(o, op)| {
                 o.starts_with("ok ") || o.starts_with("sym ") || o.starts_with("line ") || o.starts_with("frames ")
-                    || o == "parsed" || (o == "fine" && !op.starts_with("debugid")) || o.starts_with("served sym") || o.starts_with("served none") || o.starts_with("resp ") || o.starts_with("json ")
+                    || o == "parsed" || (o == "fine" && !op.starts_with("debugid")) || o == "id-ok" || o.starts_with("served sym") || o.starts_with("served none") || o.starts_with("resp ") || o.starts_with("json ")
             })
     }
 }
